@@ -23,12 +23,13 @@ var c04MultiMain = []string{
 	"cfg = {net = {}}\n_G.cfg.net.abc = 1\nprint(cfg.net.abc)\n",
 	"cfg = {}\n_G.cfg.name = gfar\ncfg.other = _G.cfg.name\n",
 	"local m = require(\"o\")\nprint(m, gfar)\n",
+	"local m = require(\"o\")\nprint(m.bar)\nlocal k = m.bar\nm.bar()\nprint(k)\n",
 }
 
 var c04MultiOther = []string{
-	"\n\n\n\n\n                    local pad = 1; gfar = 1\nfunction gfn(a) return a end\nreturn {}\n",
-	"gfar = 1; function gfn(a) return a end\nreturn {}\n",
-	"-- comment\n\tlocal s = \"x\"; gfar = s\n\n\n\n\nfunction     gfn(a) return a end\nreturn {}\n",
+	"\n\n\n\n\n                    local pad = 1; gfar = 1\nfunction gfn(a) return a end\nlocal M = {}\nM.foo = 1\nfunction M.bar() end\nreturn M\n",
+	"gfar = 1; function gfn(a) return a end\nlocal M = {}\nM.foo = 1\nfunction M.bar() end\nreturn M\n",
+	"-- comment\n\tlocal s = \"x\"; gfar = s\n\n\n\n\nfunction     gfn(a) return a end\nlocal M = {}\nM.foo = 1\nfunction M.bar() end\nreturn M\n",
 }
 
 var reIdent = regexp.MustCompile(`^[A-Za-z_][A-Za-z0-9_]*$`)
@@ -185,6 +186,11 @@ var c04AnnotationDocs = []string{
 	"    ---@class Shape @c\n    ---@field area fun(self: Shape): number\n    local Shape = {}\n    ---@generic S : Shape\n    ---@param s S @the shape\n    ---@return S, number\n    local function measure(s) return s, 1 end\n    print(measure(Shape))\n",
 }
 
+func init() {
+	c04AnnotationDocs = append(c04AnnotationDocs,
+		"---@class Person\n---@field public name string\n---@field private secret number\n---@field protected owner Person\n---@field age number\nlocal Person = {}\n---@type Person\nlocal p = Person\nprint(p.name, p.secret, p.owner, p.age)\n")
+}
+
 var reAnnWord = regexp.MustCompile(`[A-Za-z_][A-Za-z0-9_]*`)
 
 func c04AnnotationSpace() *core.Space {
@@ -211,6 +217,41 @@ func c04AnnotationSpace() *core.Space {
 			}
 			defer s.Close()
 			s.Open("m.lua", text)
+			// members used in the Lua code: a definition that lands on an annotation line must cover the member's name
+			for _, t := range luaref.Lex(text).Tokens {
+				if t.Kind != luaref.Name {
+					continue
+				}
+				tr := rng(text, luaref.Span{Start: t.Start, End: t.End})
+				locs, err := s.Definition("m.lua", tr.Start.Line, tr.Start.Character)
+				r.Transitions++
+				if err != nil {
+					continue
+				}
+				for _, loc := range locs {
+					if s.Rel(loc.URI) != "m.lua" {
+						continue
+					}
+					so, c1, ok1 := textref.Offset(text, textref.Pos{Line: loc.Range.Start.Line, Char: loc.Range.Start.Character})
+					eo, c2, ok2 := textref.Offset(text, textref.Pos{Line: loc.Range.End.Line, Char: loc.Range.End.Character})
+					if !ok1 || !ok2 || c1 || c2 || so > eo {
+						continue
+					}
+					ll := textref.Lines(text)[loc.Range.Start.Line]
+					if !strings.Contains(text[ll.Start:ll.End], "---@") {
+						continue
+					}
+					r.States++
+					if got := text[so:eo]; got != t.Text {
+						sig := "definition-of-a-member-lands-on-other-text-of-the-annotation-line"
+						coreS := fmt.Sprintf("%s | asked %q | answered %s %q | %s | eol %s", sig, t.Text, loc.Range, got, strings.TrimSpace(text[ll.Start:ll.End]), eol.name)
+						r.Outcome(sig)
+						r.Fail(name, i, sig, coreS, map[string]interface{}{"failure_core": coreS, "m.lua": text, "asked": t.Text, "range": loc.Range.String(), "text_under_range": got})
+					} else {
+						r.Outcome("member-definition-covers-the-field-name")
+					}
+				}
+			}
 			lines := textref.Lines(text)
 			for ln, l := range lines {
 				lt := text[l.Start:l.End]
